@@ -25,7 +25,7 @@ use crc::{Crc, CRC_32_ISCSI};
 use integer_encoding::FixedInt;
 use std::convert::{TryFrom, TryInto};
 use std::fmt;
-use std::io::{ErrorKind, SeekFrom, Write};
+use std::io::{self, ErrorKind, Read, SeekFrom, Write};
 use std::path::{Path, PathBuf};
 use std::sync::Arc;
 
@@ -603,6 +603,26 @@ impl LogReader {
     }
 
     /**
+    Fill `buf` from `file`, calling `read` again for as long as it hands out bytes.
+
+    A single `read` may return fewer bytes than asked for without being at the end of the file.
+    Only a count short of the buffer that is returned here means that the file has ended.
+    */
+    fn read_until_full<R: Read + ?Sized>(file: &mut R, buf: &mut [u8]) -> io::Result<usize> {
+        let mut filled = 0;
+        while filled < buf.len() {
+            match file.read(&mut buf[filled..]) {
+                Ok(0) => break,
+                Ok(bytes_read) => filled += bytes_read,
+                Err(error) if error.kind() == ErrorKind::Interrupted => {}
+                Err(error) => return Err(error),
+            }
+        }
+
+        Ok(filled)
+    }
+
+    /**
     Read the physical record from the file system and parse it into a [`BlockRecord`].
 
     Returns the parsed [`BlockRecord`].
@@ -622,7 +642,7 @@ impl LogReader {
         // Read the header
         let fragment_start_position = self.current_cursor_position;
         let mut header_buffer = [0; HEADER_LENGTH_BYTES];
-        let header_bytes_read = self.log_file.read(&mut header_buffer)?;
+        let header_bytes_read = LogReader::read_until_full(&mut self.log_file, &mut header_buffer)?;
         if header_bytes_read < HEADER_LENGTH_BYTES {
             // The end of the file was reached before we were able to read a full header. This
             // can occur if the log writer died in the middle of writing the record.
@@ -642,7 +662,7 @@ impl LogReader {
 
         // Read the payload
         let mut data_buffer = vec![0; data_length];
-        let data_bytes_read = self.log_file.read(&mut data_buffer)?;
+        let data_bytes_read = LogReader::read_until_full(&mut self.log_file, &mut data_buffer)?;
 
         if data_bytes_read < data_length {
             // The end of the file was reached before we were able to read a full data chunk. This
